@@ -21,6 +21,13 @@ struct Out {
 // which copy of programs and library a run uses: 0 = clang -O1 -DNDEBUG, 1 = clang -O0 with unsigned plain char, 2 = gcc -O2 -DNDEBUG
 // (one draw whatever the outcome, so that plans of other seeds keep the rest of their shape)
 static int pick_copy(Rng &r, double p_other) { double x = (double)r.below(1000000) / 1e6; return x < p_other * 0.55 ? 1 : x < p_other ? 2 : 0; }
+#include "../../build/src_literals.inc"
+// a presentation time whose sub-second part is a constant of the program (or next to one): arithmetic on struct timespec branches there
+static uint32_t ts_near_literal(Rng &r, uint64_t now_ns) {
+    uint64_t lit = kSrcLiterals[r.below(kNSrcLiterals)] % 1000000000ULL;
+    int64_t off = (int64_t)lit * (r.chance(0.7) ? 1 : -1) + (r.chance(0.6) ? 0 : (int64_t)r.range(0, 2) - 1);
+    return (uint32_t)((int64_t)((now_ns / 1000000000ULL + r.range(1, 4)) * 1000000000ULL) + off);
+}
 static uint64_t pick_epoch(Rng &r) {
     if (!r.chance(0.04)) return 1700000000ULL;
     static const uint64_t e[] = {2147483647ULL - 3, 2147483648ULL + 1000, 2208988800ULL, 4102444800ULL, 4294967295ULL - 3, 4294967296ULL + 1000};
@@ -405,6 +412,7 @@ static Built build_cvf(Rng &r, uint64_t now_ns) {
     if (r.chance(0.2)) n = (size_t[]){1396, 1399, 1400, 1401, 1404, 1408, 1420, 1472}[r.below(8)];  // around DATA_LEN and the receive size
     uint32_t ts = (uint32_t)(now_ns + (r.chance(0.7) ? r.range(0, 50000000) : r.next()));
     if (r.chance(0.12)) ts = (uint32_t)((now_ns / 1000000000ULL + r.range(1, 4)) * 1000000000ULL - (r.chance(0.7) ? 0 : r.range(1, 2)));  // presentation on a full second
+    else if (r.chance(0.08)) ts = ts_near_literal(r, now_ns);
     b.d = wire::cvf_h264((uint8_t)r.next(), kStreamId, ts, rnd_bytes(r, n));
     add_field(b, 0, 8); add_field(b, 8, 1); add_field(b, 9, 3); add_field(b, 15, 1); add_field(b, 16, 8); add_field(b, 32, 64);
     add_field(b, 96, 32); add_field(b, 128, 8); add_field(b, 136, 8); add_field(b, 31, 1); add_field(b, 12, 1); add_field(b, 178, 1); add_field(b, 179, 1);
@@ -416,6 +424,7 @@ static Built build_aaf(Rng &r, uint64_t now_ns, size_t payload) {
     Built b;
     uint32_t ts = (uint32_t)(now_ns + (r.chance(0.7) ? r.range(0, 50000000) : r.next()));
     if (r.chance(0.12)) ts = (uint32_t)((now_ns / 1000000000ULL + r.range(1, 4)) * 1000000000ULL - (r.chance(0.7) ? 0 : r.range(1, 2)));  // presentation on a full second
+    else if (r.chance(0.08)) ts = ts_near_literal(r, now_ns);
     b.d = wire::aaf_pcm((uint8_t)r.next(), kStreamId, ts, 4, 5, 2, 16, rnd_bytes(r, payload));
     add_field(b, 0, 8); add_field(b, 8, 1); add_field(b, 9, 3); add_field(b, 15, 1); add_field(b, 16, 8); add_field(b, 32, 64); add_field(b, 96, 32);
     add_field(b, 128, 8); add_field(b, 136, 4); add_field(b, 142, 10); add_field(b, 152, 8); add_field(b, 160, 16, true); add_field(b, 179, 1);
@@ -608,6 +617,9 @@ static std::string gen_c18(uint64_t seed, uint64_t idx, bool thorough) {
     // "long silence" flavour: the fault phase stretches over 11-25 s, so that hostile datagrams are seconds apart (per-stream tables,
     // time-outs and "last seen" bookkeeping age in between)
     if (!fault_free && (scen == "can" || scen == "cvf" || scen == "aaf") && r.chance(0.1)) fault += (r.chance(0.8) ? r.range(11, 25) : r.range(61, 130)) * 1000000000ULL;
+    // ... and weeks for the CAN listener, which has no timers and whose talker is driven by the bus (millisecond counters kept in an int
+    // end after 24.9 days of uptime)
+    if (!fault_free && scen == "can" && r.chance(0.03)) fault += r.range(2148000, 2600000) * 1000000000ULL;
     // ... and for the listeners whose talkers send once a second it covers minutes (rate limiters, "once a minute" bookkeeping)
     if (!fault_free && (scen == "hello" || scen == "vss") && r.chance(0.08)) fault += r.range(62, 150) * 1000000000ULL;
     // "flood" flavour: one datagram is sent thousands of times at line rate (sequence number and timestamp advancing)
@@ -628,8 +640,8 @@ static std::string gen_c18(uint64_t seed, uint64_t idx, bool thorough) {
     if (backlog) lstack = 128;
     // what a never-written local variable reads: mostly 0xA5 (a wild value), sometimes zero or small values (what a real, used stack tends to hold)
     int stackfill = r.chance(0.6) ? 0xA5 : (int[]){0x00, 0x00, 0xFF, 0x01}[r.below(4)];
-    o.line(strf("cfg scen=%s epoch=%llu outfault=%.2f env=%d argorder=%d stackfill=%d udp=%d fd=%d tscf=%d count=%d mtt=%d cantxq=%d lstack=%d o0=%d ethpad=%d sched=%s lat=%llu:%llu cost=%llu:%llu qcap=%zu tend=%llu drain=%llu quiet=%llu rseed=0x%llx skew0=%lld skew1=%lld skew2=%lld",
-                scen.c_str(), (unsigned long long)epoch, r.chance(0.08) ? 0.02 + 0.03 * (double)r.below(7) : 0.0, (int)r.chance(0.25), (int)r.coin(), stackfill, udp, fd, tscf, count, mtt, cantxq, lstack, pick_copy(r, 0.35), (int)(!udp && r.chance(0.3)), sched_str(r).c_str(), (unsigned long long)r.range(1000, 50000),
+    o.line(strf("cfg scen=%s epoch=%llu tty=%d outfault=%.2f env=%d argorder=%d stackfill=%d udp=%d fd=%d tscf=%d count=%d mtt=%d cantxq=%d lstack=%d o0=%d ethpad=%d sched=%s lat=%llu:%llu cost=%llu:%llu qcap=%zu tend=%llu drain=%llu quiet=%llu rseed=0x%llx skew0=%lld skew1=%lld skew2=%lld",
+                scen.c_str(), (unsigned long long)epoch, (int)r.chance(0.3), r.chance(0.08) ? 0.02 + 0.03 * (double)r.below(7) : 0.0, (int)r.chance(0.25), (int)r.coin(), stackfill, udp, fd, tscf, count, mtt, cantxq, lstack, pick_copy(r, 0.35), (int)(!udp && r.chance(0.3)), sched_str(r).c_str(), (unsigned long long)r.range(1000, 50000),
                 (unsigned long long)r.range(50000, 1000000), (unsigned long long)r.range(50, 500), (unsigned long long)r.range(500, 20000), qcap,
                 (unsigned long long)tend, (unsigned long long)drain, (unsigned long long)t2, (unsigned long long)rseed, (long long)r.range(0, 20000000) - 10000000,
                 (long long)r.range(0, 20000000) - 10000000, (long long)r.range(0, 20000000) - 10000000));
